@@ -193,7 +193,7 @@ def run(c):
     clib = rebound.clibrebound
     ok = c.prove(["RV.Props.C02"])
     exe = lean_exe("drv_c02")
-    T = 10 if c.thorough else 1
+    T = 30 if c.thorough else 1
     c.cov["rule"] = ("random simulations: N in [0,200] skewed small, N_active in {-1,1..N}, testparticle_type 0/1, gravity_ignore_terms 0/1/2, "
                      "6 mass families (zeros, ratios to 1e-12), softening {0, tiny, large}, ghost boxes 0-2 per axis (periodic/open/none), close pairs; "
                      "every gravity routine (BASIC, COMPENSATED, JACOBI, MERCURIUS mode 0/1 with 3 changeover functions, TRACE interaction/Kepler with random "
@@ -709,8 +709,20 @@ def run(c):
         nleaf = 0
         for rc_ in roots:
             nleaf += len(ser(rc_, toks, cells))
-        if nleaf != n:
-            viol.append(("tree:leaves", "tree holds %d leaves for %d particles" % (nleaf, n), dict(cfg=cfg, xs=xs)))
+        # hypothesis `hleaves` of c02_tree_theta0_direct on the real tree: the leaves are exactly the particles
+        lv = []
+        def collect(cell):
+            if cell.pt >= 0:
+                lv.append((cell.pt, cell.remote, cell.m, cell.mx, cell.my, cell.mz))
+            else:
+                for o in range(8):
+                    if cell.oct[o]:
+                        collect(cell.oct[o].contents)
+        for rc_ in roots:
+            collect(rc_)
+        if nleaf != n or sorted(l[0] for l in lv) != list(range(n)) or any(
+                l[1] != 0 or l[2] != cfg["ms"][l[0]] or [l[3], l[4], l[5]] != xs[l[0]] for l in lv):
+            viol.append(("tree:leaves", "the leaves of the tree are not exactly the particles (%d leaves, %d particles)" % (nleaf, n), dict(cfg=cfg, xs=xs, leaves=lv)))
             continue
         members = {ctypes.addressof(cc): mm for cc, mm in cells}
         gh = ghost_shifts(cfg)
@@ -764,6 +776,8 @@ def run(c):
                                 unb = True
                             else:
                                 bound += 6 * G * math.fsum(abs(cfg["ms"][i]) * q for i, q in zip(mine, rho2)) / (r - smax) ** 4
+                                # the cell's centre of mass is itself rounded ((x*m)/m != x): |dF| <= 2 G m |dx| / r^3, |dx| <= depth * ulp(|x|)
+                                bound += 2 * G * abs(cell.m) * 4 * (len(mine) + 2) * EPS * max(abs(cell.mx), abs(cell.my), abs(cell.mz), cell.w) / (r - smax) ** 3
                             if k in mine:
                                 g2 = gb[0] * gb[0] + gb[1] * gb[1] + gb[2] * gb[2] + s2_
                                 f = -G * cfg["ms"][k] * g2 ** -1.5 if g2 > 0 else float("nan")
